@@ -302,6 +302,22 @@ func caseC19(t TB, prog *Program) {
 				}
 			}
 		}
+		// an unknown connective turns the search into an error
+		for _, bad := range []string{"xor", "", "&", "and or"} {
+			bad := bad
+			var nbad int
+			var berr error
+			p, stk, hung := protect("operation", func() {
+				s := e.db.Search(&Doc{}, "I64", "!=", int64(-987654321)).Operation(bad, "I64", "=", int64(1))
+				berr = s.Err()
+				objs, _ := s.Collect()
+				nbad = len(objs)
+			})
+			fail(fmt.Sprintf("%s: Search(valid).Operation(%q, ...)", when, bad), p, stk, hung)
+			if berr == nil || nbad > 0 {
+				e.failf("%s: Search(valid).Operation(%q, ...) is not evaluable but Err()=%v and Collect returned %d objects", when, bad, berr, nbad)
+			}
+		}
 		// a search template that carries values: the interface{} field then has a type to
 		// search with, while stored objects hold other dynamic types (or nothing) in it
 		for _, probe := range []interface{}{"a", int64(1), 1.5} {
@@ -436,6 +452,29 @@ func caseC19(t TB, prog *Program) {
 	call("Schema", func() error { _, err := db.Schema(&Doc{}); return err })
 	call("Count", func() error { _, err := db.Count(&Doc{}); return err })
 	call("All", func() error { _, err := db.All(&Doc{}); return err })
+	// a search over an unindexed path reads every object file: either it fails, or it has looked
+	// at every object (x >= 0 and x < 0 together cover the collection) - never a silent part of it
+	for _, p := range castable {
+		if p.Class != ClsInt || p.Time || e.cfg.Cons[p.Path] != (Cons{}) || strings.Contains(p.Path, "Pt.") {
+			continue
+		}
+		var n, ge, lt int
+		var errs [3]error
+		call("scan "+p.Path, func() error {
+			n, errs[0] = db.Count(&Doc{})
+			s1 := db.Search(&Doc{}, p.Path, ">=", valOfNorm(norm{cls: ClsInt}, p).Iface(p))
+			o1, err1 := s1.Collect()
+			s2 := db.Search(&Doc{}, p.Path, "<", valOfNorm(norm{cls: ClsInt}, p).Iface(p))
+			o2, err2 := s2.Collect()
+			ge, lt, errs[1], errs[2] = len(o1), len(o2), err1, err2
+			return nil
+		})
+		if errs[0] == nil && errs[1] == nil && errs[2] == nil && ge+lt != n {
+			e.failf("battery: the collection holds %d objects; Search(%s >= 0) returned %d and Search(%s < 0) returned %d, both without error: a scan stopped silently (damage: %s)", n, p.Path, ge, p.Path, lt, canon(muts))
+		}
+		e.flag("scan-covers-collection-or-fails")
+		break
+	}
 	for _, id := range e.allIDs {
 		id := id
 		call("Get", func() error { d := &Doc{}; d.Initialize(id); _, err := db.Get(d); return err })
